@@ -109,6 +109,9 @@ impl Buildpack for TestBuildpack {
                             .requires(req("jdk", "build", "true")).requires("python")
                             .or()
                             .requires("a").requires("b").requires("a").requires("c").requires("d")
+                            // alternatives that repeat an earlier one (and an empty one, twice) stay where they were put
+                            .or().provides("node").or().provides("python").or().provides("ruby").or().provides("python")
+                            .or().or().provides("go").or()
                             .build(),
                     )
                     .build()
